@@ -26,8 +26,8 @@ def run_continue(history):
         return ['crash', len(history), type(e).__name__]
 
 
-def run(history):
-    f = Fragments()
+def run(history, fill=None):
+    f = Fragments() if fill is None else Fragments(fill=fill)
     for k, op in enumerate(history):
         try:
             if op[0] == 'i':
@@ -50,4 +50,7 @@ def run(history):
 
 if __name__ == '__main__':
     payload = json.load(open(sys.argv[1]))
+    if 'fills' in payload:      # many buffers with their own fill bytes, one process
+        json.dump([run(c['history'], bytes.fromhex(c['fill'])) for c in payload['fills']], open(sys.argv[2], 'w'), default=lambda o: {'object': type(o).__name__})
+        sys.exit(0)
     json.dump([(run_continue(h) if payload.get('continue') else run(h)) for h in payload['histories']], open(sys.argv[2], 'w'), default=lambda o: {'object': type(o).__name__})
